@@ -469,16 +469,36 @@ def _unstored_fields_rejected(prog, chk, fmaps, cls, record, order, lo_all, hi_a
         order_nodes = list(walk(sm.func.body))
         pos = {id(n): i for i, n in enumerate(order_nodes)}
         at = pos.get(id(sm.site.node), 10 ** 9)
+        # ... in the function itself, or in a function it calls before the statement with the row as argument
+        scopes = [(sm.func.body, at)]
+        cg_ = callgraph.get(prog)
+        for n in order_nodes:
+            if n.get('kind') in ('CallExpr', 'CXXMemberCallExpr') and pos[id(n)] < at:
+                e = cg_.edge_for(sm.func, n)
+                for t in (e.targets if e is not None else ()):
+                    if t.body is not None and prog.in_repo(t.file) and any(
+                            record.split('::')[-1] in (p.get('type') or '') for p in t.params):
+                        scopes.append((t.body, 10 ** 9))
         for fld in unstored:
             ok = False
-            for n in order_nodes:
-                if n.get('kind') != 'IfStmt' or pos[id(n)] > at:
-                    continue
-                c = children(n)
-                if not any(x.get('kind') == 'CXXThrowExpr' for x in walk(c[1])):
-                    continue
-                if any(x.get('kind') == 'MemberExpr' and x.get('name') == fld for x in walk(c[0])):
-                    ok = True
+            for body, limit in scopes:
+                named = {}
+                for d in walk(body):
+                    if d.get('kind') == 'VarDecl' and 'bool' in (d.get('type') or ''):
+                        named[d.get('id')] = d
+                pos_b = pos if body is sm.func.body else {id(n): i for i, n in enumerate(walk(body))}
+                for n in walk(body):
+                    if n.get('kind') != 'IfStmt' or pos_b.get(id(n), 0) > limit:
+                        continue
+                    c = children(n)
+                    if not any(x.get('kind') == 'CXXThrowExpr' for x in walk(c[1])):
+                        continue
+                    cond_nodes = list(walk(c[0]))
+                    for x in list(cond_nodes):
+                        if x.get('kind') == 'DeclRefExpr' and (x.get('referencedDecl') or {}).get('id') in named:
+                            cond_nodes += list(walk(named[(x.get('referencedDecl') or {}).get('id')]))
+                    if any(x.get('kind') == 'MemberExpr' and x.get('name') == fld for x in cond_nodes):
+                        ok = True
             inst = '%s leaves out %s' % (inst0, fld)
             if ok:
                 chk.ok('B12', inst + ' and throws when it is engaged', sm.loc)
